@@ -375,7 +375,7 @@ def cases(tier, seed):
     q = tier == "quick"
     out = []
     k = 0
-    for rep in range(3 if q else 12):
+    for rep in range(2 if q else 12):
         for r in TX_RATIOS:
             for sched in ("b2b", "bursts", "sparse"):
                 n = int(min(60, max(10, (1500 if q else 4000) / (10 * r))))
@@ -388,7 +388,7 @@ def cases(tier, seed):
             out.append({"cls": "uart_tx", "seed": "%d/C19/uart_tx/%d" % (seed, k), "ratios": ratios, "n": 12, "sched": "bursts"})
             k += 1
     k = 0
-    for rep in range(6 if q else 40):
+    for rep in range(4 if q else 40):
         for r in RX_RATIOS:
             for bad in (False, True):
                 n = int(max(8, (2000 if q else 4000) / (10 * r)))
